@@ -233,3 +233,36 @@ static void Tuple(unsigned k0, unsigned k1, unsigned order) {
 }
 extern "C" void c09_tuple_first(unsigned k0, unsigned k1, unsigned order) { Tuple<FailPolicy::FirstFail>(k0, k1, order); }
 extern "C" void c09_tuple_none(unsigned k0, unsigned k1, unsigned order) { Tuple<FailPolicy::None>(k0, k1, order); }
+
+// ---- three inputs, sequential completion orders (WhenAny static form): value -> failure -> value patterns need n >= 3
+template <FailPolicy P>
+static void Any3(unsigned k0, unsigned k1, unsigned k2, unsigned order) {
+  unsigned kind[3] = {k0, k1, k2};
+  int v[3];
+  Promise<int> pr[3];
+  Future<int> fu[3];
+  for (int i = 0; i < 3; ++i) { auto [f, p] = MakeContract<int>(); fu[i] = std::move(f); pr[i] = std::move(p); v[i] = (int)vp_nondet_u32(); }
+  WhenAny<P>(std::move(fu[0]), std::move(fu[1]), std::move(fu[2])).DetachInline(FinalAny{});
+  static const unsigned char perm[6][3] = {{0, 1, 2}, {0, 2, 1}, {1, 0, 2}, {1, 2, 0}, {2, 0, 1}, {2, 1, 0}};
+  for (int s = 0; s < 3; ++s) {
+    unsigned i = perm[order][s];
+    if (kind[i] == 0) std::move(pr[i]).Set(v[i]);
+    else if (kind[i] == 1) std::move(pr[i]).Set(StopTag{});
+    else { std::exception_ptr e; try { throw v[i]; } catch (...) { e = std::current_exception(); } std::move(pr[i]).Set(std::move(e)); }
+  }
+  auto matches = [&](unsigned i) {
+    if (kind[i] == 0) return g_final_state == (unsigned)ResultState::Value && g_final_value == v[i];
+    if (kind[i] == 1) return g_final_state == (unsigned)ResultState::Error;
+    return g_final_state == (unsigned)ResultState::Exception && g_final_exc == v[i];
+  };
+  vp_assert(g_final_n == 1, "C10 WhenAny (3 inputs) output delivered exactly once (later completions must have no effect)");
+  int first_value = -1, first_fail = -1, last_fail = -1;
+  for (int s = 0; s < 3; ++s) { unsigned i = perm[order][s]; if (kind[i] == 0) { if (first_value < 0) first_value = (int)i; } else { if (first_fail < 0) first_fail = (int)i; last_fail = (int)i; } }
+  unsigned want = P == FailPolicy::None ? perm[order][0] : first_value >= 0 ? (unsigned)first_value : P == FailPolicy::FirstFail ? (unsigned)first_fail : (unsigned)last_fail;
+  vp_assert(matches(want), "C10 WhenAny (3 inputs) carries the wrong winner for its fail policy");
+  vp_assert(vp_live_count() == 0, "C03 an input core, the combinator or the output is still alive at quiescence (3 inputs)");
+  vp_reach("c10 any3");
+}
+extern "C" void c10_any3_none(unsigned a, unsigned b, unsigned c, unsigned o) { Any3<FailPolicy::None>(a, b, c, o); }
+extern "C" void c10_any3_first(unsigned a, unsigned b, unsigned c, unsigned o) { Any3<FailPolicy::FirstFail>(a, b, c, o); }
+extern "C" void c10_any3_last(unsigned a, unsigned b, unsigned c, unsigned o) { Any3<FailPolicy::LastFail>(a, b, c, o); }
